@@ -73,7 +73,7 @@ pub fn compile_cases(prop: &str, tier: &str, seed: u64, rep: &mut Report, force_
 pub struct Built { pub cases: Vec<EmitCase>, pub emitted: Vec<Option<Emitted>>, pub results: BTreeMap<String, cratecheck::MemberResult>, pub tag: String }
 
 pub fn build_all(tag: &str, cases: Vec<EmitCase>, rep: &mut Report, build_examples: bool, extra: &dyn Fn(&EmitCase, &Emitted) -> Vec<(String, String)>) -> Option<Built> {
-    let reals: Vec<Result<Emitted, String>> = model::par_map(&cases, |c| run_real(c));
+    let reals: Vec<Result<Emitted, String>> = model::par_map(&cases, |c| match crate::pipeline::generation_survives(&serde_json::to_string(&c.doc).unwrap(), &c.cfg, 60) { Ok(()) => run_real(c), Err(e) => Err(format!("crash: {e}")) });
     let mut members = vec![];
     let mut emitted = vec![];
     for (i, (c, r)) in cases.iter().zip(reals.into_iter()).enumerate() {
@@ -82,6 +82,7 @@ pub fn build_all(tag: &str, cases: Vec<EmitCase>, rep: &mut Report, build_exampl
                 members.push(Member { pkg: format!("c{i}"), lib: lib_name(c), tree: em.tree.clone(), extra_examples: extra(c, &em) });
                 emitted.push(Some(em));
             }
+            Err(e) if e.starts_with("crash: ") => { rep.oracle_fail("generatorCrashed", crate::totality::crash_triggers(&c.doc), &case_text(c), &e); emitted.push(None); }
             Err(e) => { rep.oracle_fail("generationFailed", vec![], &case_text(c), &e); emitted.push(None); }
         }
     }
@@ -264,7 +265,10 @@ pub fn run_k16(tier: &str, seed: u64, out: &str) {
             if !r.lib_errors.is_empty() { rep.bump("skipped_library_does_not_compile"); continue; }   // quantifier: specs whose library compiles
             rep.bump("crates_with_compiling_library");
             for (e, errs) in &r.example_errors {
-                rep.oracle_fail("exampleDoesNotCompile", vec![], &case_text(c), &format!("examples/{e}.rs: {}", errs.first().cloned().unwrap_or_default()));
+                use mir_rust::ToRustIdent;
+                let op = em.hir.operations.iter().find(|o| mir_rust::sanitize_filename(&o.file_name()) == *e);
+                let shadows = op.map(|o| o.parameters.iter().any(|p| !p.optional && p.name.to_rust_ident().0 == "client")).unwrap_or(false);
+                rep.oracle_fail("exampleDoesNotCompile", if shadows { vec!["requiredInputNamedClient".to_string()] } else { vec![] }, &case_text(c), &format!("examples/{e}.rs: {}", errs.first().cloned().unwrap_or_default()));
             }
             for e in &r.built_examples { if examples.contains(e) { jobs.push((i, e.clone())); } }
             for e in &examples { if !r.built_examples.contains(e) && !r.example_errors.contains_key(e) { rep.oracle_fail("exampleNotBuilt", vec![], &case_text(c), e); } }
@@ -327,6 +331,9 @@ fn check_example_run(rep: &mut Report, c: &EmitCase, em: &Emitted, stem: &str, r
     let empty = vec![];
     let Ok(spec) = crate::pipeline::parse_spec(&serde_json::to_string(&c.doc).unwrap(), true) else { return };
     let Some(declared) = spec.operations().find(|(p, m, _, _)| *p == op.path && *m == op.method).and_then(|(_, _, o, item)| crate::hirprops::declared_inputs(&spec, o, item)) else { return };
+    // names are distinct within the parameter scope and within the body scope (D)
+    let fold = |s: &str| s.chars().filter(|c| c.is_ascii_alphanumeric()).collect::<String>().to_lowercase();
+    if declared.iter().enumerate().any(|(i, (n, l, _))| declared.iter().skip(i + 1).any(|(m, k, _)| fold(n) == fold(m) && (n != m || (l == "body") == (k == "body")))) { rep.bump("operations_outside_D_input_names_clash"); return; }
     for (name, loc, _req) in &declared {
         let has = |list: &Value, n: &str| list.as_array().unwrap_or(&empty).iter().any(|kv| kv[0].as_str() == Some(n) || kv[0].as_str() == Some(&format!("{n}[]")));
         let present = match loc.as_str() {
